@@ -380,9 +380,13 @@ func checkC10Sched(job *Job, res *Result) {
 	if b, ok := job.Params["bound"].(float64); ok {
 		bound = int(b)
 	}
+	only10, _ := job.Params["only"].(string)
 	scs := []c10Params{{"chan-2writers-2subs", "chan"}, {"live-2writers", "live"}, {"publish-after-ack", "publish-gated"}, {"publish-vs-subscribe", "publish-race"}, {"hook-2writers", "hook"}}
 	for _, p := range scs {
 		p := p
+		if only10 != "" {
+			break
+		}
 		b := bound
 		if p.Kind == "hook" && b > 1 && job.Tier != "thorough" {
 			b = 1 // real HTTP round trips per execution: keep the quick tier short
@@ -397,9 +401,15 @@ func checkC10Sched(job *Job, res *Result) {
 			return
 		}
 	}
-	{
-		p := c10FollowSubParams{Name: "follower-subscriber-3-channels", Nchan: 3}
+	for _, p := range []c10FollowSubParams{{Name: "follower-subscriber-3-channels", Nchan: 3}, {Name: "follower-subscriber-big-object", Nchan: 2, Big: true}} {
+		p := p
+		if only10 != "" && only10 != p.Name {
+			continue
+		}
 		b := bound - 1 // two servers: ~150 points per execution
+		if only10 != "" {
+			b = bound
+		}
 		sc := schedScenario{Name: "c10." + p.Name, Params: p, Run: func(prefix []int) schedOut { return c10FollowSubRun(job, p, prefix) }, DevBound: true}
 		st := exploreSched(job, res, sc, b)
 		res.Extra[sc.Name] = map[string]any{"execs": st.Execs, "outcomes": len(st.Outcomes), "max_choice_points": st.MaxPoints, "bound": b}
@@ -409,6 +419,9 @@ func checkC10Sched(job *Job, res *Result) {
 	}
 	for _, p := range c10RedefScenarios() {
 		p := p
+		if only10 != "" {
+			break
+		}
 		b := bound
 		if b > 1 && job.Tier != "thorough" {
 			b = 1 // real HTTP round trips per execution
